@@ -488,7 +488,47 @@ def hist_fn(case):
     return r
 
 
+# ---------------------------------------------------------------------------------------------
+# species-name phase: every ordered pair of formulas from a name alphabet in one mixture, several mixtures per
+# process; the alphabet holds names that differ only by letter case (CO / Co, CS / Cs, NO / No, HF / Hf), nested
+# counts and multi-letter elements, so that any name normalisation or process-wide memo of weights collides
+# ---------------------------------------------------------------------------------------------
+NAMES = ['CO', 'Co', 'CS', 'Cs', 'NO', 'No', 'HF', 'Hf', 'SiO', 'SIO', 'C2H2', 'NH3', 'TiO', 'Na', 'PH3', 'HCl', 'CaH',
+         'MgH', 'AlO', 'Ne', 'Ar', 'LiH']
+
+
+def names_case(case):
+    from taurex.data.profiles.chemistry import TaurexChemistry, ConstantGas
+    from taurex.util.util import get_molecular_weight
+    r = core.R(case)
+    fx.reset_caches()
+    a, b = case['pair']
+    n = 3
+    P = pressures(n, 'std')
+    T = temperatures(n, 'iso1000')
+    chem = TaurexChemistry(fill_gases=['H2', 'He'], ratio=0.17)
+    chem.addGas(ConstantGas(a, mix_ratio=0.2))
+    if b != a:
+        chem.addGas(ConstantGas(b, mix_ratio=0.1))
+    chem.initialize_chemistry(n, T, P, None)
+    names = ['H2', 'He', a] + ([b] if b != a else [])
+    mix = np.asarray(chem.mixProfile, dtype=float)
+    if r.check(mix.shape == (len(names), n) and list(chem.gases) == names, 'names-shape', 'names/shape',
+               got=list(chem.gases), want=names):
+        r.eq(np.asarray(chem.muProfile, float), rchem.mu_profile(names, mix), 'mu-value', 'names/mu', rtol=1e-9,
+             species=[a, b])
+    for g in names:
+        r.eq(get_molecular_weight(g), rchem.molecular_mass_kg(g), 'molecular-weight', 'names/weight', rtol=1e-9,
+             species=g, after=[a, b])
+    r.observe(np.asarray(chem.muProfile, float))
+    r.nontrivial = a != b
+    return r
+
+
 def explore(ctx):
+    nc = [{'pair': [a, b]} for a in NAMES for b in NAMES]
+    ctx.bounds.update(name_pairs=len(nc))
+    ctx.run_cases('names_case', nc, phase='names')
     pc, ns = profile_cases(ctx.tier)
     ctx.bounds.update(profile_layer_counts=ns, profile_cases=len(pc))
     ctx.run_cases('profile_case', pc, phase='profile')
